@@ -130,4 +130,11 @@ def run(res, tier, broken):
 
 
 def replay(res, path):
+    import json
+    rep = json.load(open(path))
+    if "mode" not in rep or "params" not in rep:
+        # (every replay file carries the VERIF seed, so vs.replay's own test for a schedule does not apply here)
+        print("no concrete failing input in this replay; broken obligations:")
+        print(json.dumps(rep.get("broken", rep), indent=1)[:3000])
+        return 1
     return vs.replay("sc_rwlock", SOURCES, path, validate)
